@@ -111,7 +111,7 @@ CHECKS = {
         "every core the VM holds, running or checkpointed, keeps position inside the text, matched = text[start..pos), line/column in step; C03_matches_located - the result list is "
         "a chain: increasing, non-overlapping, each match with Start<End<=|text|, Value=text[Start:End], Line = 1+newlines before the offset, Column = 1-based byte column, at both ends; "
         "C03_numbers; C03_replace_same_matches. Tie: all fields of every match compared with the model and with closed forms recomputed in Python from the text alone, on multi-line texts. C03_variables_are_substrings - in the specification every string variable of every outcome of an attempt started at off is text[a,b) with off <= a <= b <= end: a substring of the match value; C03_variables_are_substrings_any_bytecode - at the level of the VM, for arbitrary bytecode, named loops and their nested iteration maps included: every string variable at any depth of every reported match is a substring of its Value (C03_esub_meaning spells the predicate out).",
-   note="Column claim: ASCII texts (the implementation counts runes per consumed chunk, the model bytes).",
+   note="Column claim: ASCII texts (the implementation counts runes per consumed chunk, the model bytes); on texts with a byte >= 0x80 the correspondence compares offsets, lines, values and variables and leaves the two column fields out.",
    technique="Coq proof (step invariant + induction over the scan, arbitrary programs) + independent closed-form oracle on the implementation",
    ref="DESIGN.md 7 C03"),
  "C05": dict(
